@@ -19,12 +19,12 @@ def _task(T, name, warm, props, shard):
     solver_task(T, name, warm, props, shard)
 
 
-NSHARD = {'C01': 6, 'C05': 2, 'C17': 3, 'C03': 1, 'C16': 1}
+NSHARD = {'C01': 6, 'C05': 2, 'C17': 3, 'C03': 1, 'C16': 1, 'C20': 2}
 
 
 for _n in SOLVERS:
     for _w in (False, True):
-        for _p in ('C01', 'C05', 'C17', 'C03', 'C16'):
+        for _p in ('C01', 'C05', 'C17', 'C03', 'C16', 'C20'):
             if (_p == 'C05' and not _w) or (_p == 'C16' and _n != 'AndersonCD'):
                 continue
             for _s in range(NSHARD[_p]):
